@@ -138,7 +138,7 @@ def main(tier, seed, replay=None):
         if replay or base:
             cases += base
         if not replay:
-            nbase = 16 if tier == "quick" else 200
+            nbase = 16 if tier == "quick" else 90
             k = 0
             made = 0
             while made < nbase and k < 40 * nbase:
